@@ -103,6 +103,8 @@ func zzC05_stream() {
 	for i := 0; i < whole; i++ {
 		msg, err := ReadMessage(r, d)
 		vAssert(err == nil && msg != nil, "complete message is delivered whatever the fragmentation")
+		vObserve("consumed", uint64(r.off))
+		vObserve("reads", uint64(r.reads))
 		vAssert(r.off == ends[i], "exactly the declared length is consumed")
 		vAssert(msg.Header.HopByHopID == hbh[i], "messages come out in stream order")
 		out, e2 := msg.Serialize()
